@@ -336,3 +336,6 @@ func VerifyRaw(typ int, pub, msg, sig []byte) bool {
 	}
 	return false
 }
+
+// Expand derives n pseudo-random bytes from (seed, label).
+func Expand(seed uint64, label string, n int) []byte { return expand(seed, label, n) }
